@@ -57,6 +57,9 @@ fn stable_headers(m: &Msg) -> Vec<(String, Vec<u8>)> {
         .collect()
 }
 
+/// status with which the host answers a relayed request when it answers at all
+static HOST_STATUS: std::sync::atomic::AtomicU16 = std::sync::atomic::AtomicU16::new(200);
+
 fn do_request(w: &World, callers: &[Caller], k: ReqKind, sport: u16, conn: Option<&mut Client>) -> Outcome {
     let c = &callers[k.caller];
     let hi = if c.dest == WS { 0 } else if c.dest == HOSTGA { 1 } else { 2 };
@@ -64,7 +67,7 @@ fn do_request(w: &World, callers: &[Caller], k: ReqKind, sport: u16, conn: Optio
     if k.host_fails {
         host.set_responder(Arc::new(|_m: &Msg, _c, _i| Action::Reset));
     } else {
-        host.set_responder(Arc::new(|_m: &Msg, _c, _i| Action::Reply(vec![simple_response(200, &[], b"ok")])));
+        host.set_responder(Arc::new(|_m: &Msg, _c, _i| Action::Reply(vec![simple_response(HOST_STATUS.load(std::sync::atomic::Ordering::SeqCst), &[], b"ok")])));
     }
     let cur = host.cursor();
     let raw = build_request("POST", URLS[k.url], &[("Host", b"h"), ("Metadata", b"true"), ("X-Req", b"1")], Some(b"body"), None);
@@ -182,6 +185,7 @@ fn main() {
 
     let mut sport: u16 = 33000;
     let mut evals = 0u64;
+    let mut host_refused_total = 0u64;
     let mut nontrivial: BTreeSet<String> = BTreeSet::new();
     let mut status_json_checked = 0u64;
     let mut hist_n = 0u64;
@@ -267,6 +271,47 @@ fn main() {
             if hist_n <= 2 || (h.len() == 5 && res.samples.len() < 5) {
                 res.sample(json!({"case": case, "expected_summary": refsum.iter().map(|(k, v)| json!({"key": [k.0, k.1, k.2, k.3, k.4], "count": v})).collect::<Vec<_>>()}));
             }
+        }
+        // the host itself refuses relayed requests (401 / 403 / 500): only what the *rules* deny is recorded, and once
+        {
+            let mut refused_n = 0u64;
+            for hs in [401u16, 403, 500] {
+                HOST_STATUS.store(hs, std::sync::atomic::Ordering::SeqCst);
+                w.rt.block_on(async { st_shared.clear_all_summary().await.unwrap() });
+                let mut refsum = Summary::new();
+                'callers: for ci in 0..callers.len() {
+                    for ui in 0..URLS.len() {
+                        for _rep in 0..2 {
+                            let k = ReqKind { caller: ci, url: ui, host_fails: false };
+                            let c = &callers[ci];
+                            sport = if sport >= 35000 { 33000 } else { sport + 1 };
+                            let o = do_request(&w, &callers, k, sport, None);
+                            evals += 1;
+                            refused_n += 1;
+                            let denied = !pol.disabled() && !pol.allows(c.user, URLS[ui]);
+                            if denied {
+                                let (ip, port) = c.dest.split_once(':').unwrap();
+                                *refsum.entry((c.user.to_string(), c.exe.to_string(), format!("{} {}", c.exe, c.arg), ip.to_string(), port.parse().unwrap())).or_insert(0) += 1;
+                            }
+                            let case = json!({"mode": mode, "default_allow": default_allow, "family": "host-refuses-relayed-requests", "host_status": hs, "caller": c.label, "url": URLS[ui]});
+                            if !(denied && pol.enforce()) && o.status != Ok(hs) {
+                                res.violation("host-status-not-passed-on", &format!("the host answered {hs} to a relayed request, the client got {:?}", o.status), case.clone());
+                            }
+                            let got = read_summary(&w);
+                            if got != refsum {
+                                res.violation(
+                                    if got.values().sum::<u64>() > refsum.values().sum::<u64>() { "summary:more-occurrences-than-denials:host-refused" } else { "summary:denial-not-recorded:host-refused" },
+                                    &format!("the host answers {hs} to relayed requests; after a request by {} for {} the failed-authorization summary is {:?}, expected {:?}", c.label, URLS[ui], got, refsum),
+                                    case,
+                                );
+                                break 'callers;
+                            }
+                        }
+                    }
+                }
+            }
+            HOST_STATUS.store(200, std::sync::atomic::Ordering::SeqCst);
+            host_refused_total += refused_n;
         }
         // concurrent block: 3 keep-alive connections, the same denied request on each, interleaved
         {
@@ -442,7 +487,8 @@ fn main() {
     res.cov("histories", hist_n);
     res.cov("status_json_comparisons", status_json_checked);
     res.cov("exhaustive", true);
-    res.cov("rule", format!("every history of <= {max_len} requests over {{alice, bob -> IMDS; two elevated root processes -> WireServer, one of them also -> HostGAPlugin}} x 3 URLs (granted, matched-but-ungranted, unmatched) x {{host answers, host resets the connection}} (length-3 histories without the second root process), plus 5 identical denials, 6 denials on 3 concurrent keep-alive connections, a denied request on a connection that was opened (and served) while the rules were disabled, a denied request after the host closed the relay connection, 520 (1100) denied requests from as many different processes, and a sampled burst of 250 (600) concurrent denied requests, under {} mode/default configurations; after every request the public failed-authorization summary is compared with the reference multiset (user, process path, command line, destination -> count); status.json of the real status task is compared for every 7th (quick: 37th) history and every 5-denial block; non-trivial = request the rules deny", configs.len()));
+    res.cov("host_refused_requests", host_refused_total);
+    res.cov("rule", format!("every history of <= {max_len} requests over {{alice, bob -> IMDS; two elevated root processes -> WireServer, one of them also -> HostGAPlugin}} x 3 URLs (granted, matched-but-ungranted, unmatched) x {{host answers, host resets the connection}} (length-3 histories without the second root process), plus every caller x URL twice while the host answers relayed requests with 401 / 403 / 500, plus 5 identical denials, 6 denials on 3 concurrent keep-alive connections, a denied request on a connection that was opened (and served) while the rules were disabled, a denied request after the host closed the relay connection, 520 (1100) denied requests from as many different processes, and a sampled burst of 250 (600) concurrent denied requests, under {} mode/default configurations; after every request the public failed-authorization summary is compared with the reference multiset (user, process path, command line, destination -> count); status.json of the real status task is compared for every 7th (quick: 37th) history and every 5-denial block; non-trivial = request the rules deny", configs.len()));
     res.assume("audit-mode denials are compared with the same request under an allowing rule set (status and what the host received, modulo date/MAC headers)");
     std::process::exit(res.finish());
 }
